@@ -15,6 +15,9 @@ import os, json
 REPORTED = set()
 WHY = {1: "file-outside-all-roots", 2: "file-of-unselected-alias", 3: "listing-disabled", 4: "listing-dir-not-inside",
        5: "listing-content", 6: "unrecognised-reply"}
+# 5 = the listing page, tokenised the way a browser does, is not the fixed template with exactly one anchor per visible child
+#     whose href (percent-decoded) and text (entity-decoded) both equal the child's name: dot-file shown, name not escaped,
+#     attribute / tag injected by a name
 
 
 def run(ctx):
@@ -25,6 +28,8 @@ def run(ctx):
         "file_server::main is driven on a dummy connection (tests/dummy_api.h seam, synchronous serving); the HTTP front end is "
         "represented by cppcms::util::urldecode + C-string truncation applied by the harness to every %-encoded spelling",
         "the sandbox tree is the one logged in each Reset line (planted by the harness itself); markers identify files uniquely",
+        "listing pages are judged from the raw HTML by a browser-like reader in TLA+ (tag ends at '>', attribute value at the matching "
+        "quote); entry names cover ' \" < > & space % # ? ; = + \\ ( ) ! * ~, bytes >= 0x80, TAB, LF and 0x01",
         "with check_symlink off 'inside' means reachable from the root downwards with the OS following links (the statement "
         "only demands link resolution when checking is on)",
     ]
@@ -69,6 +74,7 @@ def run(ctx):
         job("full2", ["enum", "full", 2, 0, 1] + ALL, 1)
         job("merge", ["enum", "merge", 5, 0, 1, 5], 1)
         job("ix3", ["enum", "ix", 3, 0, 1] + ALL, 1)
+        job("hl3", ["enum", "hl", 3, 0, 1] + ALL, 1)
         job("ix4", ["enum", "ix", 4, 0, 1, 5, 7, 3], 1)
         job("rnd", ["rnd", 1500, 10, 0, 1] + ALL, 1)
     else:
@@ -79,6 +85,7 @@ def run(ctx):
         job("merge", ["enum", "merge", 6, 0, 1, 5], 1)
         job("merge4", ["enum", "merge", 5, 0, 1, 4, 7], 1)
         job("ix4", ["enum", "ix", 4, 0, 1] + ALL, 1)
+        job("hl4", ["enum", "hl", 4, 0, 1] + ALL, 2)
         job("ix5", ["enum", "ix", 5, 0, 1, 5, 7, 3], 3)
         job("rnd", ["rnd", 20000, 14, 0, 1] + ALL, 4)
     NT = 6 if q else 12
@@ -148,7 +155,7 @@ def report(ctx, shard, x):
             e = json.loads(lines[int(r[0]) - 1])
             desc = "cfg %s (check_symlink=%s listing=%s aliases=%s), request %r (decoded %r) -> %s %s" % (
                 cfg, bool(cfg & 1), bool(cfg & 2), bool(cfg & 4), bytes(e["raw"]), bytes(e["p"]), e.get("kind"),
-                ("marker %s" % e.get("m")) if "m" in e else ("rows %r" % [bytes(z) for z in e.get("rows", [])][:6]))
+                ("marker %s" % e.get("m")) if "m" in e else ("listing page (table part at offset %s of the block)" % e.get("bo")))
         except Exception:
             desc = "line %s" % r[0]
         ctx.violation(sig, desc[:600], x["path"])
